@@ -16,7 +16,7 @@ from fractions import Fraction
 import networkx as nx
 import common, gen, gen_scc
 
-LEVEL = "proof + per-instance certificate"
+LEVEL = "proof"   # proof + per-instance certificate (see claim text)
 EXPLANATION = (
     "Proved for all graphs (cycles, self-loops included), Props/C06.v: safe_dec, incompat_dec, forbid_dec decide exactly the "
     "declarative notions (product automaton (node, matched prefix, matched prefix) + verified closure; greedy matching exact); "
